@@ -37,6 +37,16 @@ var foldAlphabet = []rune{
 	'Ⓐ', 'ⓐ', 'Ⓩ', 'ⓩ', 'Ⅻ', 'ⅻ', 'Ⅰ', 'ⅰ',
 }
 
+// punct20: ASCII non-letters whose partner in bit 0x20 is another byte that
+// occurs in text; they have no case, so the partner must never match.
+var punct20 = map[rune]rune{'[': '{', '{': '[', ']': '}', '}': ']', '@': '`', '`': '@', '^': '~', '~': '^', '|': '\\', '\\': '|', '*': '\n', ')': '\t'}
+
+var punctAlphabet = []rune{'[', '{', ']', '}', '@', '`', '^', '~', '|', '\\', '*', ')'}
+
+// asciiOrbitAlphabet: runes that have an ASCII member in their fold orbit
+// (K and ſ are the non-ASCII ones), for documents that are plain ASCII.
+var asciiOrbitAlphabet = []rune{'a', 'b', 'k', 'K', 'K', 's', 'S', 'ſ', 'i', 'I', 'x', 'Z', 'K', 'ſ'}
+
 func orbit(r rune) []rune {
 	out := []rune{r}
 	for x := unicode.SimpleFold(r); x != r; x = unicode.SimpleFold(x) {
@@ -59,8 +69,36 @@ func genC08(rt *rapid.T) c08Case {
 	g := kit.G{T: rt}
 	n := g.Int(3, 8, "plen")
 	pr := make([]rune, n)
+	// modes: fold-rich text (default); plain-ASCII documents searched with a
+	// pattern that may hold K / ſ; patterns with ASCII punctuation
+	asciiDocs := g.Bool(15, "asciidocs")
+	withPunct := !asciiDocs && g.Bool(30, "punct")
 	for i := range pr {
-		pr[i] = kit.Pick(g, foldAlphabet, "prune")
+		switch {
+		case asciiDocs:
+			pr[i] = kit.Pick(g, asciiOrbitAlphabet, "prune")
+		case withPunct && g.Bool(35, "ispunct"):
+			pr[i] = kit.Pick(g, punctAlphabet, "ppunct")
+		default:
+			pr[i] = kit.Pick(g, foldAlphabet, "prune")
+		}
+	}
+	variant := func() []rune {
+		v := make([]rune, len(pr))
+		for i, r := range pr {
+			o := orbit(r)
+			if asciiDocs {
+				var a []rune
+				for _, x := range o {
+					if x < 0x80 {
+						a = append(a, x)
+					}
+				}
+				o = a
+			}
+			v[i] = o[g.Int(0, len(o)-1, "variant")]
+		}
+		return v
 	}
 	c := c08Case{Pattern: string(pr), Chunk: g.Bool(50, "chunk")}
 	nd := g.Int(1, 3, "ndocs")
@@ -68,21 +106,37 @@ func genC08(rt *rapid.T) c08Case {
 		var sb strings.Builder
 		parts := g.Int(1, 5, "parts")
 		for p := 0; p < parts; p++ {
-			switch g.Int(0, 5, "part") {
+			switch g.Int(0, 6, "part") {
 			case 0:
-				sb.WriteString(kit.Pick(g, []string{" ", "\n", "xx ", "ab", "σσ", "kk", "ss"}, "noise"))
+				noise := []string{" ", "\n", "xx ", "ab", "σσ", "kk", "ss"}
+				if asciiDocs {
+					noise = []string{" ", "\n", "xx ", "ab", "kk", "ss"}
+				}
+				sb.WriteString(kit.Pick(g, noise, "noise"))
 			case 1:
-				// a near miss: a variant with one rune replaced
-				v := []rune(c.Pattern)
-				v[g.Int(0, len(v)-1, "missi")] = 'q'
-				sb.WriteString(string(v))
-			default:
-				v := make([]rune, len(pr))
-				for i, r := range pr {
-					o := orbit(r)
-					v[i] = o[g.Int(0, len(o)-1, "variant")]
+				// a near miss: a variant with one rune replaced (a punctuation
+				// rune by its partner in bit 0x20)
+				v := variant()
+				i := g.Int(0, len(v)-1, "missi")
+				if p2, ok := punct20[v[i]]; ok && g.Bool(70, "misspartner") {
+					v[i] = p2
+				} else {
+					v[i] = 'q'
 				}
 				sb.WriteString(string(v))
+			case 2:
+				// three runes of a variant (or of a near miss) several times:
+				// makes the trigrams around that position frequent, so that the
+				// index picks other trigrams of the pattern to find candidates
+				v := variant()
+				i := g.Int(0, len(v)-3, "wini")
+				w := append([]rune(nil), v[i:i+3]...)
+				if p2, ok := punct20[w[1]]; ok && g.Bool(50, "winpartner") {
+					w[1] = p2
+				}
+				sb.WriteString(strings.Repeat(string(w)+" ", g.Int(2, 4, "winrep")))
+			default:
+				sb.WriteString(string(variant()))
 			}
 			sb.WriteString(kit.Pick(g, []string{" ", "\n", "", "-"}, "sep"))
 		}
@@ -197,10 +251,29 @@ func runC08(rec *kit.Recorder, c c08Case) error {
 		// deviates from the standard library on this very pattern and text.
 		gre, err := gregexp.Compile("(?i)" + regexp.QuoteMeta(c.Pattern) + "(?:)")
 		if err == nil {
+			deviates := false
+			engine := fileRanges{}
 			for i := range repo.Docs {
-				if fmt.Sprint(gre.FindAllIndex(repo.Docs[i].Content, -1)) != fmt.Sprint(std.FindAllIndex(repo.Docs[i].Content, -1)) {
-					known = "C08-regexp-engine-fold"
+				d := &repo.Docs[i]
+				ms := gre.FindAllIndex(d.Content, -1)
+				if fmt.Sprint(ms) != fmt.Sprint(std.FindAllIndex(d.Content, -1)) {
+					deviates = true
 				}
+				var rs [][2]int
+				for _, m := range ms {
+					rs = append(rs, [2]int{m[0], m[1]})
+				}
+				if !c.Chunk {
+					rs = splitAtNewlines(d.Content, rs)
+				}
+				if len(rs) > 0 {
+					engine[d.Name] = rs
+				}
+			}
+			// known only if the regexp form reports exactly what the engine
+			// itself finds: any other wrong answer is still a violation
+			if deviates && sb == fmt.Sprint(engine) {
+				known = "C08-regexp-engine-fold"
 			}
 		}
 	}
@@ -209,7 +282,7 @@ func runC08(rec *kit.Recorder, c c08Case) error {
 
 func TestVerif_C08(t *testing.T) {
 	rec := kit.Open(t, "C08",
-		"patterns of 3-8 runes over a fold-rich alphabet (orbits of 2, 3 and 4 members, case forms of different byte length, İ/ı) x 1-3 documents made of random fold-variants of the pattern, near misses and noise; substring form vs a regexp form that cannot be distilled to a substring (literal followed by an empty match); non-trivial = a matched occurrence differs from the pattern in a non-ASCII rune; distinct by hash",
+		"patterns of 3-8 runes over a fold-rich alphabet (orbits of 2, 3 and 4 members, case forms of different byte length, İ/ı; 30% with ASCII punctuation whose bit-0x20 partner is another punctuation byte; 15% plain-ASCII documents searched with patterns that may hold K / ſ) x 1-3 documents made of random fold-variants of the pattern, near misses (one rune replaced, punctuation by its partner), repeated three-rune windows (so that candidate trigrams vary) and noise; substring form vs a regexp form that cannot be distilled to a substring (literal followed by an empty match); non-trivial = a matched occurrence differs from the pattern in a non-ASCII rune; distinct by hash",
 		"both forms are searched through index.NewSearcher on one in-memory shard, in line and chunk mode",
 		"the simple-fold reference and the standard library engine are only used to classify a disagreement, not to decide it",
 	)
